@@ -64,9 +64,17 @@ func VerifC06_Subscription(h *zz.H) {
 
 	// one notification: nu updates + nd deletes with symbolic paths
 	n := &pb.Notification{Prefix: &pb.Path{Target: target}, Timestamp: 1}
+	if h.Param("NPRE", 1) == 1 && h.Range("noti_prefix_elems", 0, 1) == 1 {
+		n.Prefix.Elem = []*pb.PathElem{{Name: h.Atom("noti_prefix")}}
+	}
+	// atomic notifications are matched like any other: by the paths of their updates
+	n.Atomic = h.Range("atomic", 0, 1) == 1
 	nu := h.Range("nupd", 0, h.Param("U", 2))
 	nd := h.Range("ndel", 0, h.Param("D", 1))
 	h.Assume(nu+nd >= 1)
+	if n.Atomic {
+		h.Assume(nu >= 1 && nd == 0)
+	}
 	for i := 0; i < nu; i++ {
 		n.Update = append(n.Update, &pb.Update{Path: vPath(h, "upd", 0, LP, false), Val: vIntVal(1)})
 	}
@@ -94,7 +102,7 @@ func VerifC06_Subscription(h *zz.H) {
 	h.Assert(ga == gb, "C06: subscribers registered with the same paths are treated alike")
 
 	removeA()
-	n2 := &pb.Notification{Prefix: n.Prefix, Timestamp: 2, Update: n.Update, Delete: n.Delete}
+	n2 := &pb.Notification{Prefix: n.Prefix, Timestamp: 2, Update: n.Update, Delete: n.Delete, Atomic: n.Atomic}
 	UpdateNotification(m, n2, n2, path.ToStrings(n2.Prefix, true))
 	h.Assert(c06Deliveries(qa) == 0, "C06: nothing is offered after the subscription has been removed")
 	h.Assert((c06Deliveries(qb) >= 1) == want, "C06: other subscribers registered with the same paths are unaffected by the removal")
